@@ -124,8 +124,11 @@ void handler_fire_stanza(xmpp_conn_t *conn, xmpp_stanza_t *stanza)
         }
 
         next = item->next;
+        /* a namespace filter matches the stanza's own namespace; for handlers
+           registered by the user it also matches the namespace of a child */
         if ((!item->u.ns || (ns && strcmp(ns, item->u.ns) == 0) ||
-             xmpp_stanza_get_child_by_ns(stanza, item->u.ns)) &&
+             (item->user_handler &&
+              xmpp_stanza_get_child_by_ns(stanza, item->u.ns))) &&
             (!item->u.name || (name && strcmp(name, item->u.name) == 0)) &&
             (!item->u.type || (type && strcmp(type, item->u.type) == 0))) {
 
